@@ -111,9 +111,29 @@ func fieldBoundary(m *big.Int) []*big.Int {
 		}
 		mw.Rsh(mw, 64)
 	}
+	// every boundary value also as a RAW (Montgomery) representation: v' = v * R^-1 has limbs equal to v
+	n0 := len(l)
+	for i := 0; i < n0; i++ {
+		if l[i].Sign() >= 0 && l[i].Cmp(m) < 0 {
+			l = append(l, mod(mul(l[i], rinv), m))
+		}
+	}
+	// doubling / halving boundaries: 2x has the top limb of the modulus
+	top := new(big.Int).Rsh(m, uint(64*(limbs-1)))
+	for _, d := range []int64{-1, 0, 1} {
+		t := new(big.Int).Lsh(add(top, small(d)), uint(64*(limbs-1)))
+		for _, e := range []int64{-2, -1, 0, 1, 2} {
+			h := add(new(big.Int).Rsh(t, 1), small(e))
+			if h.Sign() >= 0 && h.Cmp(m) < 0 {
+				l = append(l, h, mod(mul(h, rinv), m))
+			}
+		}
+	}
+	seen := map[string]bool{}
 	out := l[:0]
 	for _, v := range l {
-		if v.Sign() >= 0 && v.Cmp(m) < 0 {
+		if v.Sign() >= 0 && v.Cmp(m) < 0 && !seen[v.String()] {
+			seen[v.String()] = true
 			out = append(out, v)
 		}
 	}
